@@ -453,3 +453,31 @@ pub fn dump_all<'tcx>(tcx: TyCtxt<'tcx>) -> Vec<J> {
     }
     out
 }
+
+/// Bodies of `const` / `static` items (module level, associated, or nested in a function): a table that used to be written in
+/// place (`match`, an `if` chain, repeated inserts) is often given a name; the rules read the table through the name.
+pub fn dump_consts<'tcx>(tcx: TyCtxt<'tcx>) -> Vec<J> {
+    let mut out = vec![];
+    for ldid in tcx.hir_body_owners() {
+        let did = ldid.to_def_id();
+        let kind = tcx.def_kind(did);
+        if !matches!(kind, DefKind::Const { .. } | DefKind::AssocConst { .. } | DefKind::Static { .. }) {
+            continue;
+        }
+        let body = tcx.hir_body_owned_by(ldid);
+        let tr = tcx.typeck(ldid);
+        let env = ty::TypingEnv::post_analysis(tcx, did);
+        let d = D { tcx, tr, env, unsafe_blocks: std::cell::Cell::new(0) };
+        let value = d.expr(body.value);
+        let t = tcx.type_of(did).instantiate_identity().skip_norm_wip();
+        out.push(J::O(vec![
+            ("path", s(path_str(tcx, did))),
+            ("id", s(def_id_str(tcx, did))),
+            ("kind", s(format!("{:?}", kind))),
+            ("ty", s(ty_str(t))),
+            ("loc", loc(tcx, tcx.def_span(did))),
+            ("body", value),
+        ]));
+    }
+    out
+}
